@@ -11,7 +11,7 @@ from harness import c01x, common, vmpool
 REQUIRED = ["flow_sound", "compat_table_sound", "prune_sound", "flow_sound_pytype_rules", "flow_sound_sem",
             "typeOf_admits", "sub_sound", "collapse_widens", "wider_is_sound",
             "merge_only_hides_older", "rebind_keeps_older", "older_visible_before_merge",
-            "visible_iff_clear_path", "hidden_by_later_binding", "rebound_stays_visible"]
+            "visible_iff_clear_path", "hidden_by_later_binding", "rebound_stays_visible", "rebind_op_makes_visible"]
 
 # ----------------------------------------------------------------------------------------------
 # program generator: python-side AST = nested tuples mirroring the Lean `Expr`/`Stmt`
